@@ -1,0 +1,90 @@
+//go:build verif
+
+// Contracts for property C19 (cap slice): the degenerate-case algebra of Cap. Point membership is
+// "chord distance from the centre <= radius" with the chord distance an uninterpreted deterministic
+// function (its value, and ChordAngle arithmetic, are numerical and not decided); comparisons are exact
+// IEEE (fpcmp). Empty and full caps behave as the empty set and the whole sphere in every operation,
+// AddPoint/AddCap never lose a point and never move the centre of a non-empty cap.
+// Comment-only; build tag verif.
+
+package s2
+
+//@ import "github.com/golang/geo/s1"
+
+//@ property C19
+
+//@ func ChordAngleBetweenPoints(x, y Point) s1.ChordAngle
+//@   assumed "chord distance (floating point): a deterministic function of the two points, never negative (min(4, squared norm)); value not decided"
+//@   pure
+//@   fpcmp
+//@   ensures !(result < 0)
+
+//@ func (c Cap) IsEmpty() bool
+//@   fpcmp
+//@   ensures result == (c.radius < 0)
+
+//@ func (c Cap) IsFull() bool
+//@   fpcmp
+//@   ensures result == (c.radius == s1.StraightChordAngle)
+
+//@ func EmptyCap() Cap
+//@   fpcmp
+//@   ensures result.IsEmpty() && !result.IsFull()
+
+//@ func FullCap() Cap
+//@   fpcmp
+//@   ensures result.IsFull() && !result.IsEmpty()
+
+//@ func (c Cap) ContainsPoint(p Point) bool
+//@   fpcmp
+//@   ensures [membership] result == (ChordAngleBetweenPoints(c.center, p) <= c.radius)
+
+//@ func (c Cap) Contains(other Cap) bool
+//@   fpcmp
+//@   ensures [empty-is-contained] other.IsEmpty() ==> result
+//@   ensures [full-contains-all] c.IsFull() ==> result
+
+//@ func (c Cap) Intersects(other Cap) bool
+//@   fpcmp
+//@   ensures [empty-meets-nothing] c.IsEmpty() || other.IsEmpty() ==> !result
+
+//@ func (c Cap) InteriorIntersects(other Cap) bool
+//@   fpcmp
+//@   ensures [empty-meets-nothing] c.IsEmpty() || other.IsEmpty() ==> !result
+//@   ensures [point-cap-has-no-interior] c.radius == 0 ==> !result
+
+//@ func (c Cap) Complement() Cap
+//@   fpcmp
+//@   ensures [of-full] c.IsFull() ==> result.IsEmpty()
+//@   ensures [of-empty] c.IsEmpty() ==> result.IsFull()
+
+//@ func (c Cap) Expanded(distance s1.Angle) Cap
+//@   fpcmp
+//@   ensures [empty-stays-empty] c.IsEmpty() ==> result.IsEmpty()
+
+// AddPoint: the new point is a member, old members stay members, the centre of a non-empty cap does not move
+//@ func (c Cap) AddPoint(p Point) Cap
+//@   fpcmp
+//@   ghost q Point
+//@   requires !vcIsNaN(float64(c.radius)) && !vcIsNaN(float64(ChordAngleBetweenPoints(c.center, p)))
+//@   ensures [first-point] c.IsEmpty() ==> vcSame(result.center, p) && result.radius == 0
+//@   ensures [added] !c.IsEmpty() ==> result.ContainsPoint(p)
+//@   ensures [kept] c.ContainsPoint(q) ==> result.ContainsPoint(q)
+//@   ensures [centre-fixed] !c.IsEmpty() ==> vcSame(result.center, c.center)
+//@   ensures [never-shrinks] !c.IsEmpty() ==> result.radius >= c.radius
+
+//@ func (c Cap) AddCap(other Cap) Cap
+//@   fpcmp
+//@   ghost q Point
+//@   requires !vcIsNaN(float64(c.radius)) && !vcIsNaN(float64(other.radius))
+//@   ensures [empty-left] c.IsEmpty() ==> vcSame(result, other)
+//@   ensures [empty-right] !c.IsEmpty() && other.IsEmpty() ==> vcSame(result, c)
+//@   ensures [kept] !c.IsEmpty() && c.ContainsPoint(q) ==> result.ContainsPoint(q)
+
+//@ func (c Cap) Union(other Cap) Cap
+//@   fpcmp
+//@   requires !vcIsNaN(float64(c.radius)) && !vcIsNaN(float64(other.radius))
+//@   ensures [with-empty-right] other.IsEmpty() && !c.IsEmpty() ==> vcSame(result, c)
+//@   ensures [with-empty-left] c.IsEmpty() && !other.IsEmpty() ==> vcSame(result, other)
+//@   ensures [both-empty] c.IsEmpty() && other.IsEmpty() ==> result.IsEmpty()
+//@   ensures [with-full] (c.IsFull() || other.IsFull()) && c.radius <= s1.StraightChordAngle && other.radius <= s1.StraightChordAngle ==> result.IsFull()
